@@ -84,6 +84,32 @@ pub struct Shape {
     pub pin: u8,
     pub pout: u8,
     pub signed: bool,
+    /// slip_index pattern of the inputs: 0 = 0,1,2..; 1 = 253,254,255,..; 2 = 254,255,0,..; 3 = 255,0,1,..; 4 = all 255; 5 = 255,254,253,..
+    pub sidx: u8,
+    /// one integer field set to a boundary value BEFORE signing (0 = none; see `TWEAK_NAMES`)
+    pub tw: u8,
+    /// which boundary: 0 -> 0, 1 -> 1, 2 -> MAX-1, 3 -> MAX of the field's type
+    pub tv: u8,
+}
+pub const TWEAK_NAMES: [&str; 11] = ["none", "timestamp", "txs-replacements", "input0-amount", "input0-block-id", "input0-tx-ordinal", "last-input-slip-index", "output0-amount", "output0-block-id", "output0-tx-ordinal", "all-amounts"];
+pub const BOUNDARY_NAMES: [&str; 4] = ["0", "1", "max-minus-1", "max"];
+pub fn boundary(tv: u8, max: u64) -> u64 {
+    match tv {
+        0 => 0,
+        1 => 1,
+        2 => max - 1,
+        _ => max,
+    }
+}
+pub fn u64_class(v: u64) -> String {
+    match v {
+        0 => "0".into(),
+        1 => "1".into(),
+        u64::MAX => "u64-max".into(),
+        x if x == u64::MAX - 1 => "u64-max-minus-1".into(),
+        x if x == u32::MAX as u64 => "u32-max".into(),
+        _ => "other".into(),
+    }
 }
 pub const TX_TYPE_NAMES: [&str; 9] = ["normal", "fee", "goldenticket", "atr", "vip", "spv", "issuance", "blockstake", "bound"];
 impl Shape {
@@ -100,10 +126,25 @@ impl Shape {
         } else {
             "fewer-than-three-slips-each-side"
         };
+        // boundary shapes: one key per FIELD (the transaction type and the exact value are in the replay)
+        if self.tw != 0 {
+            let v = if self.tv >= 2 { "near-max" } else { "near-zero" };
+            return format!("tx-{}-{}", TWEAK_NAMES[(self.tw as usize).min(10)], v);
+        }
+        if self.sidx != 0 {
+            return format!("{}-tx-input-slip-index-near-255", TX_TYPE_NAMES[(self.ty as usize).min(8)]);
+        }
         format!("{}-tx-{}", TX_TYPE_NAMES[(self.ty as usize).min(8)], cnt)
     }
     pub fn spec(&self) -> String {
-        format!("shape {} {} {} {} {} {}", self.ty, self.nin, self.nout, self.pin, self.pout, self.signed as u8)
+        if self.sidx == 0 && self.tw == 0 {
+            format!("shape {} {} {} {} {} {}", self.ty, self.nin, self.nout, self.pin, self.pout, self.signed as u8)
+        } else {
+            format!("shape {} {} {} {} {} {} {} {} {}", self.ty, self.nin, self.nout, self.pin, self.pout, self.signed as u8, self.sidx, self.tw, self.tv)
+        }
+    }
+    pub fn plain(ty: u8, nin: u8, nout: u8, pin: u8, pout: u8, signed: bool) -> Shape {
+        Shape { ty, nin, nout, pin, pout, signed, sidx: 0, tw: 0, tv: 0 }
     }
 }
 fn slip_pattern(p: u8, n: usize) -> Vec<SlipType> {
@@ -116,6 +157,70 @@ fn slip_pattern(p: u8, n: usize) -> Vec<SlipType> {
             _ => SlipType::Normal,
         })
         .collect()
+}
+
+/// a message / fetched block whose INTEGER fields sit on boundary values (boundary sweep, monitor-only)
+#[derive(Clone, Copy, Debug, PartialEq, Eq)]
+pub enum Probe {
+    /// tag 11; fork: 0 zero, 1 all 0xFF, 2 the node's own fork id, 3 random
+    GhostReq { id: u64, fork: u8 },
+    /// tag 5
+    ChainReq { id: u64, fork: u8 },
+    /// tag 6 with an unknown hash
+    HeaderHash { id: u64 },
+    /// tag 10: n entries with ids id, id+1 (wrapping).. and timestamps ts
+    Ghost { id: u64, ts: u64, n: u8, txs: bool },
+    /// tags 12..14 with message index idx
+    Api { tag: u8, idx: u32 },
+    /// tag 2 (valid signature) with core (which = 0) or wallet (which = 1) version major.minor.patch
+    RespVer { major: u8, minor: u8, patch: u16, which: u8 },
+    /// a valid next block with one header integer field replaced and re-signed (see `BLOCK_FIELD_NAMES`)
+    BlockField { field: u8, val: u64 },
+    /// a valid next block delivered with this `block_id` in the BlockFetched event
+    FetchedId { id: u64 },
+}
+pub const BLOCK_FIELD_NAMES: [&str; 27] = [
+    "id", "timestamp", "graveyard", "treasury", "total-fees", "total-fees-new", "total-fees-atr", "total-fees-cumulative", "avg-total-fees", "avg-total-fees-new",
+    "avg-total-fees-atr", "total-payout-routing", "total-payout-mining", "total-payout-treasury", "total-payout-graveyard", "total-payout-atr", "avg-payout-routing",
+    "avg-payout-mining", "avg-payout-treasury", "avg-payout-graveyard", "avg-payout-atr", "avg-fee-per-byte", "fee-per-byte", "avg-nolan-rebroadcast-per-block", "burnfee",
+    "difficulty", "previous-block-unpaid",
+];
+impl Probe {
+    pub fn class(&self) -> String {
+        match self {
+            Probe::GhostReq { id, .. } => format!("ghost-chain-request-block-id-{}", u64_class(*id)),
+            Probe::ChainReq { id, .. } => format!("blockchain-request-block-id-{}", u64_class(*id)),
+            Probe::HeaderHash { id } => format!("header-hash-block-id-{}", u64_class(*id)),
+            Probe::Ghost { id, ts, txs, .. } => format!("ghost-chain-block-id-{}-timestamp-{}-{}", u64_class(*id), u64_class(*ts), if *txs { "fetch" } else { "ghost-blocks" }),
+            Probe::Api { tag, idx } => format!("api-message-tag{}-index-{}", tag, u64_class(if *idx == u32::MAX { u32::MAX as u64 } else { *idx as u64 })),
+            Probe::RespVer { major, minor, patch, which } => format!("handshake-response-{}-version-{}.{}.{}", if *which == 0 { "core" } else { "wallet" }, major, minor, patch),
+            Probe::BlockField { field, val } => format!("block-header-{}-{}", BLOCK_FIELD_NAMES[(*field as usize).min(26)], u64_class(*val)),
+            Probe::FetchedId { id } => format!("block-fetched-event-block-id-{}", u64_class(*id)),
+        }
+    }
+    pub fn spec(&self) -> String {
+        match self {
+            Probe::GhostReq { id, fork } => format!("probe ghostreq {} {}", id, fork),
+            Probe::ChainReq { id, fork } => format!("probe chainreq {} {}", id, fork),
+            Probe::HeaderHash { id } => format!("probe headerhash {}", id),
+            Probe::Ghost { id, ts, n, txs } => format!("probe ghost {} {} {} {}", id, ts, n, *txs as u8),
+            Probe::Api { tag, idx } => format!("probe api {} {}", tag, idx),
+            Probe::RespVer { major, minor, patch, which } => format!("probe respver {} {} {} {}", major, minor, patch, which),
+            Probe::BlockField { field, val } => format!("probe blockfield {} {}", field, val),
+            Probe::FetchedId { id } => format!("probe fetchedid {}", id),
+        }
+    }
+    pub fn tag(&self) -> u8 {
+        match self {
+            Probe::GhostReq { .. } => 11,
+            Probe::ChainReq { .. } => 5,
+            Probe::HeaderHash { .. } => 6,
+            Probe::Ghost { .. } => 10,
+            Probe::Api { tag, .. } => *tag,
+            Probe::RespVer { .. } => 2,
+            _ => 0,
+        }
+    }
 }
 
 #[derive(Clone, Copy, Debug, PartialEq, Eq)]
@@ -157,6 +262,8 @@ impl TxC {
 pub enum BlkC {
     /// a valid block on the tip into which the transaction of the current `Shape` was inserted (re-signed)
     Shape,
+    /// the fetched block described by the world's current `Probe`
+    Probe,
     Garbage,
     WrongHash,
     DupInput,
@@ -173,6 +280,7 @@ impl BlkC {
     pub fn name(&self) -> String {
         match self {
             BlkC::Shape => "shape".into(),
+            BlkC::Probe => "probe".into(),
             BlkC::Garbage => "garbage".into(),
             BlkC::WrongHash => "wronghash".into(),
             BlkC::DupInput => "dupinput".into(),
@@ -209,6 +317,8 @@ pub enum MsgC {
     GhostShort,
     /// 0 = (0, zero); 1 = (u64::MAX, random)
     GhostReq(u8),
+    /// the message described by the world's current `Probe`
+    Probe,
     App(u8),
     KeyList(u16),
     /// undecodable: 0 = empty buffer, 1 = unknown tag, 2 = tag 3 + garbage, 3 = tag 6 wrong length, 4 = tag 2 truncated, 5 = tag 4 shorter than the fixed header
@@ -231,6 +341,8 @@ pub enum Ev {
     BumpMsg { p: u64, n: u64 },
     /// set-up only: the shape that `tx:shape` / `fetched .. shape` refer to from now on
     SetShape(Shape),
+    /// set-up only: the probe that `msg p probe` / `fetched p probe` refer to from now on
+    SetProbe(Probe),
 }
 
 impl MsgC {
@@ -250,6 +362,7 @@ impl MsgC {
             MsgC::Ghost { n, txs } => format!("ghost:{}:{}", n, *txs as u8),
             MsgC::GhostShort => "ghostshort".into(),
             MsgC::GhostReq(_) => "ghostreq".into(),
+            MsgC::Probe => "probe".into(),
             MsgC::App(t) => format!("app:{}", t),
             MsgC::KeyList(_) => "keylist".into(),
             MsgC::Undecodable(_) => "undecodable".into(),
@@ -268,6 +381,7 @@ impl MsgC {
             MsgC::Services => 9,
             MsgC::Ghost { .. } | MsgC::GhostShort => 10,
             MsgC::GhostReq(_) => 11,
+            MsgC::Probe => 0,
             MsgC::App(t) => *t,
             MsgC::KeyList(_) => 15,
             MsgC::Undecodable(_) => 0,
@@ -289,6 +403,7 @@ impl Ev {
             Ev::Advance => "advance".into(),
             Ev::BumpMsg { p, n } => format!("bumpmsg {} {}", p, n),
             Ev::SetShape(sh) => sh.spec(),
+            Ev::SetProbe(pr) => pr.spec(),
         }
     }
     pub fn sender(&self) -> Option<u64> {
@@ -300,7 +415,7 @@ impl Ev {
     }
     /// is this a peer input (counts towards the sequence length) as opposed to a schedule step
     pub fn is_input(&self) -> bool {
-        !matches!(self, Ev::RunV | Ev::RunC | Ev::Tick | Ev::Advance | Ev::BumpMsg { .. } | Ev::SetShape(_))
+        !matches!(self, Ev::RunV | Ev::RunC | Ev::Tick | Ev::Advance | Ev::BumpMsg { .. } | Ev::SetShape(_) | Ev::SetProbe(_))
     }
 }
 
@@ -344,6 +459,7 @@ pub struct World {
     pub main_len: u64,
     pub fork_done: [bool; 3],
     pub cur_shape: Option<Shape>,
+    pub cur_probe: Option<Probe>,
 }
 
 #[derive(Clone, Debug, PartialEq, Eq, Default)]
@@ -455,7 +571,19 @@ pub fn panic_loc() -> &'static Mutex<String> {
 /// panic hook that records the source location of the panic (file name only + line) instead of printing it
 pub fn record_panics() {
     std::panic::set_hook(Box::new(|info| {
-        let l = info.location().map(|l| format!("{}:{}", l.file().rsplit('/').next().unwrap_or(""), l.line())).unwrap_or_default();
+        let mut l = info.location().map(|l| format!("{}:{}", l.file().rsplit('/').next().unwrap_or(""), l.line())).unwrap_or_default();
+        let in_std = info.location().map(|l| l.file().contains("/rustc/") || l.file().contains("library/")).unwrap_or(false);
+        if in_std {
+            // e.g. an overflowing `Iterator::sum`: name the first saito-core function on the stack instead of accum.rs
+            let bt = std::backtrace::Backtrace::force_capture().to_string();
+            if let Some(f) = bt.lines().map(|x| x.trim()).filter(|x| x.contains("saito_core::")).map(|x| x.split_once(": ").map(|p| p.1).unwrap_or(x)).find(|x| !x.contains("{{closure}}") || true) {
+                let f = f.split("::h").next().unwrap_or(f);
+                let short: Vec<&str> = f.split("::").filter(|p| !p.contains("closure") && !p.starts_with('<') && !p.is_empty()).collect();
+                let n = short.len();
+                let name = if n >= 2 { format!("{}.{}", short[n - 2], short[n - 1]) } else { f.replace("::", ".") };
+                l = format!("{}:0 ({})", name.replace(' ', ""), l);
+            }
+        }
         *panic_loc().lock().unwrap() = l;
     }));
 }
@@ -608,6 +736,7 @@ impl World {
             main_len: 0,
             fork_done: [false; 3],
             cur_shape: None,
+            cur_probe: None,
         };
         w.setup().await;
         // the same node switched to lite / browser mode after set-up (the handlers read the mode on every call)
@@ -876,7 +1005,14 @@ impl World {
                     sl.amount = 0;
                     sl.block_id = 1;
                     sl.tx_ordinal = 0;
-                    sl.slip_index = i as u8;
+                    sl.slip_index = match sh.sidx {
+                        0 => i as u8,
+                        1 => 253u8.wrapping_add(i as u8),
+                        2 => 254u8.wrapping_add(i as u8),
+                        3 => 255u8.wrapping_add(i as u8),
+                        4 => 255,
+                        _ => 255u8.wrapping_sub(i as u8),
+                    };
                     sl.slip_type = t;
                     tx.from.push(sl);
                 }
@@ -888,8 +1024,31 @@ impl World {
                     sl.slip_type = t;
                     tx.to.push(sl);
                 }
+                match sh.tw {
+                    1 => tx.timestamp = boundary(sh.tv, u64::MAX),
+                    2 => tx.txs_replacements = boundary(sh.tv, u32::MAX as u64) as u32,
+                    3 => { if let Some(x) = tx.from.first_mut() { x.amount = boundary(sh.tv, u64::MAX) } }
+                    4 => { if let Some(x) = tx.from.first_mut() { x.block_id = boundary(sh.tv, u64::MAX) } }
+                    5 => { if let Some(x) = tx.from.first_mut() { x.tx_ordinal = boundary(sh.tv, u64::MAX) } }
+                    6 => { if let Some(x) = tx.from.last_mut() { x.slip_index = boundary(sh.tv, u8::MAX as u64) as u8 } }
+                    7 => { if let Some(x) = tx.to.first_mut() { x.amount = boundary(sh.tv, u64::MAX) } }
+                    8 => { if let Some(x) = tx.to.first_mut() { x.block_id = boundary(sh.tv, u64::MAX) } }
+                    9 => { if let Some(x) = tx.to.first_mut() { x.tx_ordinal = boundary(sh.tv, u64::MAX) } }
+                    10 => {
+                        for x in tx.from.iter_mut().chain(tx.to.iter_mut()) {
+                            x.amount = boundary(sh.tv, u64::MAX);
+                        }
+                    }
+                    _ => {}
+                }
                 if sh.signed {
                     tx.sign(&sk);
+                }
+                // block id / ordinal of outputs are not signed; `sign` leaves them alone, but keep the tweak visible
+                match sh.tw {
+                    8 => { if let Some(x) = tx.to.first_mut() { x.block_id = boundary(sh.tv, u64::MAX) } }
+                    9 => { if let Some(x) = tx.to.first_mut() { x.tx_ordinal = boundary(sh.tv, u64::MAX) } }
+                    _ => {}
                 }
             }
             TxC::Valid | TxC::BadSig => {
@@ -962,12 +1121,62 @@ impl World {
                 let gt = self.factory.golden_ticket_tx(&tip, creator);
                 let mut b = self.factory.make_block(tip.hash, tip.timestamp + 250, creator, vec![], Some(gt)).await.expect("block");
                 stx.generate(&key(creator).0, 0, b.id);
+                let huge = stx.txs_replacements > 4096;
                 b.transactions.insert(0, stx);
-                b.merkle_root = [0; 32];
-                b.merkle_root = b.generate_merkle_root(false, false);
-                self.factory.resign(&mut b, creator);
-                let _ = b.generate();
+                if huge {
+                    // the harness must not expand millions of merkle leaves itself: any non-zero root will do, the node
+                    // recomputes and compares it
+                    b.merkle_root = [1; 32];
+                    self.factory.resign(&mut b, creator);
+                } else {
+                    b.merkle_root = [0; 32];
+                    b.merkle_root = b.generate_merkle_root(false, false);
+                    self.factory.resign(&mut b, creator);
+                    let _ = b.generate();
+                }
                 (b.hash, b.id, ser(&b))
+            }
+            BlkC::Probe => {
+                let gt = self.factory.golden_ticket_tx(&tip, creator);
+                let mut b = self.factory.make_block(tip.hash, tip.timestamp + 250, creator, vec![], Some(gt)).await.expect("block");
+                match self.cur_probe.expect("probe set") {
+                    Probe::BlockField { field, val } => {
+                        let f: &mut u64 = match field {
+                            0 => &mut b.id,
+                            1 => &mut b.timestamp,
+                            2 => &mut b.graveyard,
+                            3 => &mut b.treasury,
+                            4 => &mut b.total_fees,
+                            5 => &mut b.total_fees_new,
+                            6 => &mut b.total_fees_atr,
+                            7 => &mut b.total_fees_cumulative,
+                            8 => &mut b.avg_total_fees,
+                            9 => &mut b.avg_total_fees_new,
+                            10 => &mut b.avg_total_fees_atr,
+                            11 => &mut b.total_payout_routing,
+                            12 => &mut b.total_payout_mining,
+                            13 => &mut b.total_payout_treasury,
+                            14 => &mut b.total_payout_graveyard,
+                            15 => &mut b.total_payout_atr,
+                            16 => &mut b.avg_payout_routing,
+                            17 => &mut b.avg_payout_mining,
+                            18 => &mut b.avg_payout_treasury,
+                            19 => &mut b.avg_payout_graveyard,
+                            20 => &mut b.avg_payout_atr,
+                            21 => &mut b.avg_fee_per_byte,
+                            22 => &mut b.fee_per_byte,
+                            23 => &mut b.avg_nolan_rebroadcast_per_block,
+                            24 => &mut b.burnfee,
+                            25 => &mut b.difficulty,
+                            _ => &mut b.previous_block_unpaid,
+                        };
+                        *f = val;
+                        self.factory.resign(&mut b, creator);
+                        (b.hash, b.id, ser(&b))
+                    }
+                    Probe::FetchedId { id } => (b.hash, id, ser(&b)),
+                    _ => (b.hash, b.id, ser(&b)),
+                }
             }
             BlkC::Garbage => ([7; 32], tip.id + 1, self.rng.bytes(50)),
             BlkC::Known => (tip.hash, tip.id, ser(&tip)),
@@ -1156,6 +1365,77 @@ impl World {
                     _ => Message::Error(a).serialize(),
                 }
             }
+            MsgC::Probe => {
+                let fork_of = |w: &mut World, fork: u8, own: [u8; 32]| -> [u8; 32] {
+                    match fork {
+                        0 => [0; 32],
+                        1 => [0xFF; 32],
+                        2 => own,
+                        _ => w.rng.bytes(32).try_into().unwrap(),
+                    }
+                };
+                let own_fork = {
+                    let bc = self.blockchain.read().await;
+                    bc.fork_id.unwrap_or([0; 32])
+                };
+                match self.cur_probe.expect("probe set") {
+                    Probe::GhostReq { id, fork } => {
+                        let f = fork_of(self, fork, own_fork);
+                        Message::GhostChainRequest(id, [3; 32], f).serialize()
+                    }
+                    Probe::ChainReq { id, fork } => {
+                        let f = fork_of(self, fork, own_fork);
+                        let mut v = vec![5u8];
+                        v.extend(id.to_be_bytes());
+                        v.extend([3u8; 32]);
+                        v.extend(f);
+                        v
+                    }
+                    Probe::HeaderHash { id } => Message::BlockHeaderHash(self.rng.bytes(32).try_into().unwrap(), id).serialize(),
+                    Probe::Ghost { id, ts, n, txs } => {
+                        let tip = self.chain.last().unwrap().clone();
+                        let mut g = GhostChainSync { start: tip.hash, prehashes: vec![], previous_block_hashes: vec![], block_ids: vec![], block_ts: vec![], txs: vec![], gts: vec![] };
+                        let mut prev = tip.hash;
+                        for i in 0..n as u64 {
+                            let pre: [u8; 32] = self.rng.bytes(32).try_into().unwrap();
+                            g.prehashes.push(pre);
+                            g.previous_block_hashes.push(prev);
+                            g.block_ids.push(id.wrapping_add(i));
+                            g.block_ts.push(ts);
+                            g.txs.push(txs);
+                            g.gts.push(true);
+                            prev = saito_core::core::util::crypto::hash(&[prev.as_slice(), pre.as_slice()].concat());
+                        }
+                        Message::GhostChain(g).serialize()
+                    }
+                    Probe::Api { tag, idx } => {
+                        let a = ApiMessage { msg_index: idx, data: self.rng.bytes(8) };
+                        match tag {
+                            12 => Message::ApplicationMessage(a).serialize(),
+                            13 => Message::Result(a).serialize(),
+                            _ => Message::Error(a).serialize(),
+                        }
+                    }
+                    Probe::RespVer { major, minor, patch, which } => {
+                        let chal = self.last_challenge_sent_to(from).unwrap_or([0; 32]);
+                        let (pk, sk) = key(from_key);
+                        let my = self.routing.wallet_lock.read().await.core_version;
+                        let v = Version::new(major, minor, patch);
+                        Message::HandshakeResponse(HandshakeResponse {
+                            public_key: pk,
+                            signature: sign(&chal, &sk),
+                            is_lite: false,
+                            block_fetch_url: format!("http://peer{}.example/", from),
+                            challenge: self.rng.bytes(32).try_into().unwrap(),
+                            services: vec![],
+                            wallet_version: if which == 1 { v } else { Version::new(0, 0, 0) },
+                            core_version: if which == 0 { v } else { my },
+                        })
+                        .serialize()
+                    }
+                    _ => vec![7u8],
+                }
+            }
             MsgC::KeyList(n) => Message::KeyListUpdate((0..*n).map(|i| key(i as u64 % 12).0).collect()).serialize(),
             MsgC::Undecodable(k) => match k {
                 0 => vec![],
@@ -1221,12 +1501,14 @@ impl World {
                 }
                 MsgC::TxTrunc => "tag4-claimed-lengths-exceed-buffer".into(),
                 MsgC::Tx(TxC::Shape) => self.shape_class(),
+                MsgC::Probe => self.probe_class(),
                 MsgC::GhostShort => "tag10-short-or-inconsistent-buffer".into(),
                 other => format!("msg-{}", other.token().split(':').next().unwrap_or("")),
             },
             Ev::RunV => match self.vq.front().map(|x| &x.1) {
                 Some(VItem::Tx(_, TxC::Shape)) => self.shape_class(),
                 Some(VItem::Blk(_, BlkC::Shape)) => format!("block-with-{}", self.shape_class()),
+                Some(VItem::Blk(_, BlkC::Probe)) => self.probe_class(),
                 Some(VItem::Blk(_, BlkC::DupInput)) => "fetched-block-first-tx-repeats-input".into(),
                 Some(VItem::Blk(_, c)) => format!("verify-block-{}", self.blk_name(*c)),
                 Some(VItem::Tx(_, c)) => format!("verify-tx-{}", c.name()),
@@ -1235,6 +1517,7 @@ impl World {
             Ev::RunC => match self.cq.front().map(|x| &x.1) {
                 Some(CItem::Tx(TxC::Shape)) => self.shape_class(),
                 Some(CItem::Blk(_, BlkC::Shape)) => format!("block-with-{}", self.shape_class()),
+                Some(CItem::Blk(_, BlkC::Probe)) => self.probe_class(),
                 Some(CItem::Tx(TxC::GtShort)) | Some(CItem::Tx(TxC::GtLong)) => "golden-ticket-tx-payload-not-97-bytes".into(),
                 Some(CItem::Blk(_, BlkC::GtShort)) => "block-with-golden-ticket-payload-not-97-bytes".into(),
                 Some(CItem::Blk(_, BlkC::SpendMissing)) => "block-spending-nonexistent-output".into(),
@@ -1264,11 +1547,15 @@ impl World {
                 }
             }
             Ev::Fetched { b: BlkC::Shape, .. } => format!("fetched-block-with-{}", self.shape_class()),
+            Ev::Fetched { b: BlkC::Probe, .. } => format!("fetched-{}", self.probe_class()),
             Ev::Fetched { b, .. } => format!("fetched-{}", self.blk_name(*b)),
             other => other.token().split(' ').next().unwrap_or("").to_string(),
         }
     }
 
+    pub fn probe_class(&self) -> String {
+        self.cur_probe.map(|p| p.class()).unwrap_or("probe".into())
+    }
     pub fn shape_class(&self) -> String {
         self.cur_shape.map(|s| s.class()).unwrap_or("shape".into())
     }
@@ -1315,8 +1602,15 @@ impl World {
         let mut ib0: Option<(u64, u64)> = None;
         let chain_len0 = self.chain.len();
         let res: Result<Option<()>, String> = match ev {
+            Ev::SetProbe(pr) => {
+                self.cur_probe = Some(*pr);
+                // the next probe comes an hour later: the sender's invalid-block window (10 per hour) has passed
+                self.clock.0.fetch_add(3_601_000, Ordering::SeqCst);
+                return StepObs { outcome: "setup".into(), sent: false, dq: (0, 0, 0), post: "-".into(), panic_msg: String::new(), panic_loc: String::new(), handler: "-", bundled: false };
+            }
             Ev::SetShape(sh) => {
                 self.cur_shape = Some(*sh);
+                self.clock.0.fetch_add(3_601_000, Ordering::SeqCst);
                 return StepObs { outcome: "setup".into(), sent: false, dq: (0, 0, 0), post: "-".into(), panic_msg: String::new(), panic_loc: String::new(), handler: "-", bundled: false };
             }
             Ev::BumpMsg { p, n } => {
@@ -1444,7 +1738,7 @@ impl World {
                 self.main_len += 1;
             }
             // a shape block that the node accepted is the peers' new tip as well
-            if let Some(CItem::Blk(_, BlkC::Shape)) = &popped_c {
+            if let Some(CItem::Blk(_, BlkC::Shape)) | Some(CItem::Blk(_, BlkC::Probe)) = &popped_c {
                 if self.sync_from_node().await {
                     self.main_len += 1;
                 }
@@ -1518,7 +1812,7 @@ impl World {
                             }
                             if refused { "rejected" } else { "handled" }.to_string()
                         }
-                        Ev::Tick | Ev::Advance | Ev::BumpMsg { .. } | Ev::SetShape(_) => "handled".to_string(),
+                        Ev::Tick | Ev::Advance | Ev::BumpMsg { .. } | Ev::SetShape(_) | Ev::SetProbe(_) => "handled".to_string(),
                         _ => if returned_some { "handled" } else { "rejected" }.to_string(),
                     }
                 };
@@ -1538,6 +1832,7 @@ fn parse_txc(s: &str) -> Option<TxC> {
 fn parse_blkc(s: &str) -> Option<BlkC> {
     Some(match s {
         "shape" => BlkC::Shape,
+        "probe" => BlkC::Probe,
         "garbage" => BlkC::Garbage,
         "wronghash" => BlkC::WrongHash,
         "dupinput" => BlkC::DupInput,
@@ -1580,6 +1875,7 @@ fn parse_msgc(s: &str) -> Option<MsgC> {
         ["ghost", n, t] => MsgC::Ghost { n: n.parse().ok()?, txs: *t == "1" },
         ["ghostshort"] => MsgC::GhostShort,
         ["ghostreq"] => MsgC::GhostReq(var as u8),
+        ["probe"] => MsgC::Probe,
         ["app", t] => MsgC::App(t.parse().ok()?),
         ["keylist"] => MsgC::KeyList(var as u16),
         ["undecodable"] => MsgC::Undecodable(var as u8),
@@ -1624,14 +1920,25 @@ pub fn parse_ev(s: &str) -> Option<Vec<Ev>> {
         ["tick"] => vec![Ev::Tick],
         ["advance"] => vec![Ev::Advance],
         ["bumpmsg", p, n] => vec![Ev::BumpMsg { p: p.parse().ok()?, n: n.parse().ok()? }],
-        ["shape", ty, nin, nout, pin, pout, sg] => vec![Ev::SetShape(Shape {
+        ["shape", ty, nin, nout, pin, pout, sg, rest @ ..] if rest.is_empty() || rest.len() == 3 => vec![Ev::SetShape(Shape {
             ty: ty.parse().ok()?,
             nin: nin.parse().ok()?,
             nout: nout.parse().ok()?,
             pin: pin.parse().ok()?,
             pout: pout.parse().ok()?,
             signed: *sg == "1",
+            sidx: if rest.len() == 3 { rest[0].parse().ok()? } else { 0 },
+            tw: if rest.len() == 3 { rest[1].parse().ok()? } else { 0 },
+            tv: if rest.len() == 3 { rest[2].parse().ok()? } else { 0 },
         })],
+        ["probe", "ghostreq", id, fork] => vec![Ev::SetProbe(Probe::GhostReq { id: id.parse().ok()?, fork: fork.parse().ok()? })],
+        ["probe", "chainreq", id, fork] => vec![Ev::SetProbe(Probe::ChainReq { id: id.parse().ok()?, fork: fork.parse().ok()? })],
+        ["probe", "headerhash", id] => vec![Ev::SetProbe(Probe::HeaderHash { id: id.parse().ok()? })],
+        ["probe", "ghost", id, ts, n, txs] => vec![Ev::SetProbe(Probe::Ghost { id: id.parse().ok()?, ts: ts.parse().ok()?, n: n.parse().ok()?, txs: *txs == "1" })],
+        ["probe", "api", tag, idx] => vec![Ev::SetProbe(Probe::Api { tag: tag.parse().ok()?, idx: idx.parse().ok()? })],
+        ["probe", "respver", ma, mi, pa, wh] => vec![Ev::SetProbe(Probe::RespVer { major: ma.parse().ok()?, minor: mi.parse().ok()?, patch: pa.parse().ok()?, which: wh.parse().ok()? })],
+        ["probe", "blockfield", f, v] => vec![Ev::SetProbe(Probe::BlockField { field: f.parse().ok()?, val: v.parse().ok()? })],
+        ["probe", "fetchedid", id] => vec![Ev::SetProbe(Probe::FetchedId { id: id.parse().ok()? })],
         _ => return None,
     })
 }
@@ -1653,7 +1960,7 @@ pub fn parse_case(line: &str) -> Option<Case> {
         evs.extend(parse_ev(part.trim())?);
     }
     // lines that use transaction shapes are monitor-only like the sweep itself (the model has no shape classes)
-    let origin = if evs.iter().any(|e| matches!(e, Ev::SetShape(_))) { "shape-sweep" } else { "corpus" };
+    let origin = if evs.iter().any(|e| matches!(e, Ev::SetShape(_) | Ev::SetProbe(_))) { "shape-sweep" } else { "corpus" };
     Some(Case { mode, evs, origin })
 }
 
@@ -1965,7 +2272,7 @@ pub fn cases(seed: u64, tier: &str) -> Vec<Case> {
                             if !signed && !thorough && !matches!((pin, pout), (0, 0) | (2, 2)) {
                                 continue;
                             }
-                            let sh = Shape { ty, nin, nout, pin: *pin, pout: *pout, signed };
+                            let sh = Shape::plain(ty, nin, nout, *pin, *pout, signed);
                             groups.push(vec![Ev::SetShape(sh), Ev::Msg { from: P_ATT, m: MsgC::Tx(TxC::Shape) }, Ev::RunV, Ev::RunC, Ev::Tick]);
                             if signed || thorough {
                                 groups.push(vec![Ev::SetShape(sh), Ev::Fetched { from: P_ATT, b: BlkC::Shape }, Ev::RunV, Ev::RunC, Ev::Tick]);
@@ -1977,6 +2284,95 @@ pub fn cases(seed: u64, tier: &str) -> Vec<Case> {
         }
         for chunk in groups.chunks(40) {
             v.push(Case { mode: 0, evs: chunk.iter().flatten().cloned().collect(), origin: "shape-sweep" });
+        }
+    }
+    // 6. BOUNDARY sweep (monitor-only): every integer field of every message class the suite sends, and of fetched blocks
+    //    and their transactions, on 0 / 1 / MAX-1 / MAX of its type (arithmetic on such values panics in builds with
+    //    overflow checks and wraps silently otherwise)
+    {
+        let mut groups: Vec<Vec<Ev>> = vec![];
+        let b64 = [0u64, 1, u64::MAX - 1, u64::MAX];
+        let hs = |p: u64, k: u64| Ev::Msg { from: p, m: MsgC::Resp { ver: true, sig: true, minor: true, key: k } };
+        let probe_msg = |pr: Probe, handshaken: bool| -> Vec<Ev> {
+            let mut g = vec![Ev::SetProbe(pr)];
+            if handshaken {
+                g.extend([Ev::Connect { p: P_ATT }, hs(P_ATT, K_ATT)]);
+            }
+            g.extend([Ev::Msg { from: P_ATT, m: MsgC::Probe }, Ev::RunV, Ev::RunC, Ev::Tick]);
+            g
+        };
+        // (a) slip-index patterns near 255 on shapes that reach the index comparisons
+        for (ty, nin, nout, pin, pout) in [(8u8, 3u8, 3u8, 2u8, 2u8), (8, 4, 4, 2, 2), (8, 3, 4, 2, 2), (8, 1, 3, 0, 2), (0, 3, 3, 0, 0), (7, 3, 3, 3, 3), (3, 3, 3, 4, 4)] {
+            for sidx in 1..=5u8 {
+                let sh = Shape { ty, nin, nout, pin, pout, signed: true, sidx, tw: 0, tv: 0 };
+                groups.push(vec![Ev::SetShape(sh), Ev::Msg { from: P_ATT, m: MsgC::Tx(TxC::Shape) }, Ev::RunV, Ev::RunC, Ev::Tick]);
+                groups.push(vec![Ev::SetShape(sh), Ev::Fetched { from: P_ATT, b: BlkC::Shape }, Ev::RunV, Ev::RunC, Ev::Tick]);
+            }
+        }
+        // (b) one integer field of a transaction on a boundary value
+        let bases: Vec<(u8, u8, u8, u8, u8)> = vec![(0, 1, 1, 0, 0), (0, 2, 2, 0, 0), (8, 3, 3, 2, 2), (8, 1, 3, 0, 2), (7, 1, 1, 3, 3), (7, 2, 2, 0, 3), (3, 1, 1, 4, 4), (3, 0, 1, 0, 4), (5, 1, 1, 0, 0), (1, 1, 1, 0, 0), (6, 0, 1, 0, 0), (2, 1, 1, 0, 0)];
+        for (bi, (ty, nin, nout, pin, pout)) in bases.iter().enumerate() {
+            for tw in 1..=10u8 {
+                for tv in 0..4u8 {
+                    // quick: the interior values 1 / MAX-1 only for the first three bases (amounts: for every base)
+                    if !thorough && bi >= 3 && (tv == 1 || tv == 2) && !matches!(tw, 3 | 7 | 10) {
+                        continue;
+                    }
+                    // a replacement count near 2^32 makes the node expand that many merkle leaves: every such case costs a
+                    // watchdog period, so quick keeps one (MAX, plain transaction, both deliveries)
+                    if tw == 2 && tv >= 2 && !(bi == 0 && tv == 3) && !(thorough && bi < 4) {
+                        continue;
+                    }
+                    let sh = Shape { ty: *ty, nin: *nin, nout: *nout, pin: *pin, pout: *pout, signed: true, sidx: 0, tw, tv };
+                    groups.push(vec![Ev::SetShape(sh), Ev::Msg { from: P_ATT, m: MsgC::Tx(TxC::Shape) }, Ev::RunV, Ev::RunC, Ev::Tick]);
+                    groups.push(vec![Ev::SetShape(sh), Ev::Fetched { from: P_ATT, b: BlkC::Shape }, Ev::RunV, Ev::RunC, Ev::Tick]);
+                }
+            }
+        }
+        // (c) requests: block ids on boundaries x fork-id patterns, before and after the handshake
+        for id in b64.iter().chain([2u64, 3, 4, 10, u32::MAX as u64].iter()) {
+            for fork in 0..4u8 {
+                for handshaken in [true, false] {
+                    groups.push(probe_msg(Probe::GhostReq { id: *id, fork }, handshaken));
+                    groups.push(probe_msg(Probe::ChainReq { id: *id, fork }, handshaken));
+                }
+            }
+            groups.push(probe_msg(Probe::HeaderHash { id: *id }, true));
+            groups.push(probe_msg(Probe::HeaderHash { id: *id }, false));
+        }
+        // (d) ghost chains whose entries carry boundary ids / timestamps (queued for fetching, or added as ghost blocks)
+        for id in b64 {
+            for ts in b64 {
+                for txs in [true, false] {
+                    groups.push(probe_msg(Probe::Ghost { id, ts, n: 2, txs }, false));
+                }
+            }
+        }
+        // (e) api message index, handshake versions
+        for tag in 12..15u8 {
+            for idx in [0u32, 1, u32::MAX - 1, u32::MAX] {
+                groups.push(probe_msg(Probe::Api { tag, idx }, false));
+            }
+        }
+        for which in 0..2u8 {
+            for (ma, mi, pa) in [(0u8, 0u8, 1u16), (0, 0, u16::MAX), (255, 255, u16::MAX), (255, 0, 0), (0, 255, 0)] {
+                groups.push(vec![Ev::SetProbe(Probe::RespVer { major: ma, minor: mi, patch: pa, which }), Ev::Connect { p: P_ATT }, Ev::Msg { from: P_ATT, m: MsgC::Probe }, Ev::Msg { from: P_ATT, m: MsgC::HeaderHash(0) }, Ev::Tick]);
+            }
+        }
+        // (f) fetched blocks: every header integer field on a boundary (re-signed), and the event's own block id
+        for val in [2u64, 3, 5, 10, u32::MAX as u64] {
+            groups.push(vec![Ev::SetProbe(Probe::BlockField { field: 0, val }), Ev::Fetched { from: P_ATT, b: BlkC::Probe }, Ev::RunV, Ev::RunC, Ev::Tick]);
+        }
+        for field in 0..27u8 {
+            for val in b64 {
+                groups.push(vec![Ev::SetProbe(Probe::BlockField { field, val }), Ev::Fetched { from: P_ATT, b: BlkC::Probe }, Ev::RunV, Ev::RunC, Ev::Tick]);
+            }
+        }
+        for id in b64 {
+            groups.push(vec![Ev::SetProbe(Probe::FetchedId { id }), Ev::Fetched { from: P_ATT, b: BlkC::Probe }, Ev::RunV, Ev::RunC, Ev::Tick]);
+        }
+        for chunk in groups.chunks(40) {
+            v.push(Case { mode: 0, evs: chunk.iter().flatten().cloned().collect(), origin: "boundary-sweep" });
         }
     }
     // the same side branch when the main chain has grown meanwhile: no reorganisation, no stall
@@ -2066,13 +2462,22 @@ pub fn worker(seed: u64, tier: &str, start: usize) {
             let spec: Vec<String> = c.evs.iter().map(|e| e.spec()).collect();
             let ctx = serde_json::json!({"suite": "disp", "case": k, "mode": c.mode, "events": spec.join(" ; ")});
             emit("X", &ctx.to_string());
-            let sweep = c.origin == "shape-sweep";
+            let sweep = c.origin == "shape-sweep" || c.origin == "boundary-sweep";
+            // after a stall the parent restarts the worker on the SAME case at the group after the one that hung
+            let resume_group: usize = if k == start { std::env::var("C11_RESUME_GROUP").ok().and_then(|x| x.parse().ok()).unwrap_or(0) } else { 0 };
+            let mut group_no = 0usize;
             // events applied to the CURRENT node since it was created (what a replay has to run)
             let mut since_reset: Vec<String> = vec![];
             let mut skip_to_next_shape = false;
             for (step, ev) in c.evs.iter().enumerate() {
                 if sweep {
-                    if let Ev::SetShape(_) = ev {
+                    if let Ev::SetShape(_) | Ev::SetProbe(_) = ev {
+                        group_no += 1;
+                        emit("G", &group_no.to_string());
+                        if group_no <= resume_group {
+                            skip_to_next_shape = true;
+                            continue;
+                        }
                         if skip_to_next_shape {
                             // the node died on the previous shape: a fresh one for the rest of the sweep
                             w = World::new(seed.wrapping_add(k as u64).wrapping_add(step as u64), c.mode).await;
@@ -2084,7 +2489,7 @@ pub fn worker(seed: u64, tier: &str, start: usize) {
                     }
                     since_reset.push(ev.spec());
                 }
-                if let Ev::BumpMsg { .. } | Ev::SetShape(_) = ev {
+                if let Ev::BumpMsg { .. } | Ev::SetShape(_) | Ev::SetProbe(_) = ev {
                     w.apply(ev).await;
                     continue;
                 }
@@ -2112,13 +2517,17 @@ pub fn worker(seed: u64, tier: &str, start: usize) {
                 };
                 let before = w.digest(sender).await;
                 let pending = format!("step {} | {}", summary, w.ev_token(ev, "0"));
+                if sweep {
+                    // what a replay of a stall in this step has to run
+                    emit("X", &serde_json::json!({"suite": "disp", "case": k, "mode": c.mode, "events": since_reset.join(" ; ")}).to_string());
+                }
                 emit("P", &format!("{}\t{}", World::handler_of(ev), feature));
-                emit("O", &pending);
+                emit(if sweep { "Q" } else { "O" }, &pending);
                 let tok0 = w.ev_token(ev, "0");
                 let obs = w.apply(ev).await;
                 let tok = if let Ev::Tick = ev { format!("tick {}", obs.bundled as u8) } else { tok0 };
                 let op = format!("step {} | {}", summary, tok);
-                let ctx = if sweep { serde_json::json!({"suite": "disp", "case": k, "mode": c.mode, "events": since_reset.join(" ; "), "shape": w.cur_shape.map(|s| format!("{:?}", s))}) } else { ctx.clone() };
+                let ctx = if sweep { serde_json::json!({"suite": "disp", "case": k, "mode": c.mode, "events": since_reset.join(" ; "), "shape": w.cur_shape.map(|s| format!("{:?}", s)), "probe": w.cur_probe.map(|s| format!("{:?}", s))}) } else { ctx.clone() };
                 // sweep steps are monitor-only: the line is recorded but not compared with the model
                 emit(if sweep { "U" } else { "I" }, &format!("{}\t{}", op, obs.answer()));
                 emit("H", &format!("outcome:{}", obs.outcome.split(':').next().unwrap_or("")));
@@ -2259,8 +2668,23 @@ pub fn run(seed: u64, tier: &str, outdir: &str) {
     // (key, what, replay): recorded at the end, the FIRST occurrence of every distinct key first, because the list of
     // detailed failures kept by `Out` is capped
     let mut fails: Vec<(String, String, serde_json::Value)> = vec![];
+    let mut resume_group = 0usize;
     'outer: loop {
-        let mut child = Command::new(&exe).args(["disp-worker", &seed.to_string(), tier, &start.to_string()]).stdout(Stdio::piped()).stderr(Stdio::null()).spawn().unwrap();
+        // the worker runs under an address-space limit: an input that makes the node allocate without bound then ends the
+        // worker (reported like a stall) instead of exhausting the machine
+        let mut child = Command::new("sh")
+            .arg("-c")
+            .arg("ulimit -v 6000000 2>/dev/null; exec \"$0\" \"$@\"")
+            .arg(&exe)
+            .args(["disp-worker", &seed.to_string(), tier, &start.to_string()])
+            .env("C11_RESUME_GROUP", resume_group.to_string())
+            .stdout(Stdio::piped())
+            .stderr(Stdio::null())
+            .spawn()
+            .unwrap();
+        resume_group = 0;
+        let mut cur_group = 0usize;
+        let mut pending_sweep = false;
         let stdout = child.stdout.take().unwrap();
         let (tx, rx) = mpsc::channel::<String>();
         std::thread::spawn(move || {
@@ -2281,13 +2705,24 @@ pub fn run(seed: u64, tier: &str, outdir: &str) {
                 Ok(l) => {
                     let (tag, rest) = l.split_once('\t').unwrap_or((&l, ""));
                     match tag {
-                        "C" => cur_case = rest.parse().unwrap_or(cur_case),
+                        "C" => {
+                            cur_case = rest.parse().unwrap_or(cur_case);
+                            cur_group = 0;
+                        }
+                        "G" => cur_group = rest.parse().unwrap_or(cur_group),
                         "X" => cur_ctx = serde_json::from_str(rest).unwrap_or(serde_json::Value::Null),
                         "P" => {
                             let (h, f) = rest.split_once('\t').unwrap_or((rest, ""));
                             pending_meta = (h.to_string(), f.to_string());
                         }
-                        "O" => pending_op = Some(rest.to_string()),
+                        "O" => {
+                            pending_op = Some(rest.to_string());
+                            pending_sweep = false;
+                        }
+                        "Q" => {
+                            pending_op = Some(rest.to_string());
+                            pending_sweep = true;
+                        }
                         "I" => {
                             pending_op = None;
                             if let Some((op, ans)) = rest.split_once('\t') {
@@ -2319,11 +2754,15 @@ pub fn run(seed: u64, tier: &str, outdir: &str) {
                     let _ = child.kill();
                     let _ = child.wait();
                     if let Some(op) = pending_op.take() {
-                        out.case(&op, "stall");
+                        if pending_sweep {
+                            out.setup(&format!("sweep {} => stall", op));
+                        } else {
+                            out.case(&op, "stall");
+                        }
                         out.count("outcome:stall");
                         fails.push((
                             format!("C11/{}/stall/{}", pending_meta.0, pending_meta.1),
-                            format!("{} did not return within 2.5 s", pending_meta.0),
+                            format!("{} did not return within 2.5 s (or the worker process died inside the call)", pending_meta.0),
                             serde_json::json!({"case": cur_ctx, "seed": seed, "tier": tier, "op": op}),
                         ));
                         stalls += 1;
@@ -2331,7 +2770,13 @@ pub fn run(seed: u64, tier: &str, outdir: &str) {
                         out.count("worker-died-outside-a-handler-call");
                         fails.push(("C11/harness/worker-died-outside-a-handler-call".to_string(), "the case worker exited or hung outside a guarded handler call".to_string(), serde_json::json!({"case": cur_ctx, "seed": seed, "tier": tier})));
                     }
-                    start = cur_case + 1;
+                    if cur_group > 0 {
+                        // a sweep case: go on with the group after the one that hung
+                        start = cur_case;
+                        resume_group = cur_group;
+                    } else {
+                        start = cur_case + 1;
+                    }
                     if stalls > 60 {
                         out.count("too-many-stalls-stopped-early");
                         break 'outer;
